@@ -360,6 +360,12 @@ def families(tier='quick', seed=0):
     cmpA = ('cmp', '>', ('int', 'f'), ('int', 'g'))
     cmpB = ('cmp', '<', ('int', 'f'), ('int', 'g'))
     add('matrix', 'one row plus comparisons', {'idents': {'A': M((K('f'), ('i', 1)))}, 'cond': ('or', ('or', ('id', 'A'), cmpA), cmpB)})
+    # an and-row that carries a field-to-field comparison, next to rows that make its fields matrix columns
+    rowA = M((K('f'), S('a*')), (K('h'), S('b')))
+    add('matrix', 'row with field-to-field comparison', {'idents': {'A': rowA, 'B': M((K('g'), ('i', 1))), 'C': M((K('g'), ('i', 2)))},
+                                                        'cond': ('or', ('or', ('and', ('id', 'A'), ('cmp', '==', ('int', 'g'), ('int', 'k'))), ('id', 'B')), ('id', 'C'))})
+    add('matrix', 'row with unshared field', {'idents': {'A': M((K('f'), S('a*')), (K('h'), S('b'))), 'B': M((K('g'), ('i', 1))), 'C': M((K('g'), ('i', 2)))},
+                                             'cond': ('or', ('or', ('and', ('id', 'A'), ('cmp', '==', ('int', 'g'), ('ci', 3))), ('id', 'B')), ('id', 'C'))})
     add('shake', 'A or B same field', {'idents': {'A': M((K('f'), S('a*'))), 'B': M((K('f'), S('*b')))}, 'cond': ('or', ('id', 'A'), ('id', 'B'))})
     add('shake', 'A or B or C same field', {'idents': {'A': M((K('f'), S('a*'))), 'B': M((K('f'), S('*b'))), 'C': M((K('f'), S('ic')))},
                                             'cond': ('or', ('or', ('id', 'A'), ('id', 'B')), ('id', 'C'))})
@@ -389,6 +395,23 @@ def select(tier, seed, fams=None):
     if fams is not None:
         allt = [t for t in allt if t[0] in fams]
     return allt
+
+
+def limit_rules():
+    """rule texts that push a third-party engine to its documented limits (the regex crate refuses to compile a set whose
+    program exceeds its size limit although every member compiles on its own): run natively by the load / optimise sweeps
+    of C04 and C03 - the contract `build() may return Err` cannot be reached with the bounded strings of the symbolic runs"""
+    big = ['?\\w{50}%d' % k for k in range(8)]
+    out = {}
+    out['regex list beyond the set size limit'] = 'detection:\n  A:\n    x:\n' + ''.join("    - '%s'\n" % p for p in big) + \
+        '  condition: A\ntrue_positives: []\ntrue_negatives: []\n'
+    out['i-regex list beyond the set size limit'] = 'detection:\n  A:\n    x:\n' + ''.join("    - 'i%s'\n" % p for p in big) + \
+        '  condition: A\ntrue_positives: []\ntrue_negatives: []\n'
+    out['or of regex identifiers beyond the set size limit'] = 'detection:\n' + ''.join("  I%d:\n    x: '%s'\n" % (k, p) for k, p in enumerate(big)) + \
+        '  condition: ' + ' or '.join('I%d' % k for k in range(8)) + '\ntrue_positives: []\ntrue_negatives: []\n'
+    out['sequence of regex entries beyond the set size limit'] = 'detection:\n  A:\n' + ''.join("    - x: '%s'\n" % p for p in big) + \
+        '  condition: A\ntrue_positives: []\ntrue_negatives: []\n'
+    return out
 
 
 MUST = {'single/"a\'', 'single/i\'a"', 'single/"',
